@@ -41,6 +41,9 @@ class PyTrace:
     # -- lifecycle ---------------------------------------------------------
     def install(self) -> None:
         bp = self.bp
+        self.attached = all(hasattr(bp, n) for n in ("process_base_type", "encode_single_byte", "decode_single_byte"))
+        if not self.attached:
+            return  # the runtime was restructured: byte-level oracles still decide, the step monitor reports 0 events
         for n in ("process_base_type", "encode_single_byte", "decode_single_byte"):
             self.orig[n] = getattr(bp, n)
         bp.process_base_type = self._process_base_type
@@ -192,9 +195,13 @@ def install_contracts(bp: Any) -> None:
             return -(1 << (bits - 1)) <= result < (1 << (bits - 1)) and (result - i) % (1 << bits) == 0
         return int_ok
 
-    bp.get_mask = icontract.ensure(mask_ok, error=lambda k, c, result: ContractBroken(f"get_mask({k},{c})={result}"))(bp.get_mask)
-    bp.get_nbits_to_copy = icontract.ensure(nbits_ok, error=lambda i, j, n, result: ContractBroken(f"get_nbits_to_copy({i},{j},{n})={result}"))(bp.get_nbits_to_copy)
-    bp.smart_shift = icontract.ensure(shift_ok, error=lambda n, k, result: ContractBroken(f"smart_shift({n},{k})={result}"))(bp.smart_shift)
+    def attach(name, cond, err):
+        # a helper that was renamed or removed by a refactoring is simply not watched (counted as 0 evaluations)
+        if hasattr(bp, name):
+            setattr(bp, name, icontract.ensure(cond, error=err)(getattr(bp, name)))
+
+    attach("get_mask", mask_ok, lambda k, c, result: ContractBroken(f"get_mask({k},{c})={result}"))
+    attach("get_nbits_to_copy", nbits_ok, lambda i, j, n, result: ContractBroken(f"get_nbits_to_copy({i},{j},{n})={result}"))
+    attach("smart_shift", shift_ok, lambda n, k, result: ContractBroken(f"smart_shift({n},{k})={result}"))
     for bits in (8, 16, 32, 64):
-        name = f"int{bits}"
-        setattr(bp, name, icontract.ensure(mk_int(bits), error=(lambda bits: lambda i, result: ContractBroken(f"int{bits}({i})={result}"))(bits))(getattr(bp, name)))
+        attach(f"int{bits}", mk_int(bits), (lambda bits: lambda i, result: ContractBroken(f"int{bits}({i})={result}"))(bits))
